@@ -28,7 +28,11 @@ Clause on a pair:
                        situation: same-context (the place exists in old and new and neither side has a row matching
                        the rule's pattern), parent-one-side (the block exists only in old or only in new),
                        suppressed-one-side (t or u has a row matching the rule's pattern there).
-   patch-crash-with-implicit  diff/patch raises on (old, new) although it succeeds on the uncompleted (t, u).
+ 5 default-conflicts-with-explicit  where an explicit row and a default that neither t nor u holds are two values of one
+                       setting - the explicit row differs from the default in its last word only ('mtu 9000' / 'mtu 1500'),
+                       or annet's own rulebook puts both into one (rule, key) group of `pre` as two ADDED (two REMOVED)
+                       rows - the patch must neither raise nor issue both commands (on the device the later one wins).
+   patch-crash-with-implicit  diff/patch raises on (old, new) without such a conflict although it succeeds on (t, u).
 """
 from __future__ import annotations
 
@@ -42,8 +46,9 @@ PID = "C17"
 ENGINE = ("E1 bounded-exhaustive enumeration of config forests per hardware class against a declarative reference of "
           "'completion with defaults' (own rule-text parser, own word matcher)")
 RULE = ("tree/ordered: one case = (hardware class, forest t); forests over the class's row universe (every default row, "
-        "one row per '!' pattern, same-head/other-value, default-plus-a-word, negated default, foreign row; rows only at "
-        "the depth the rule text gives them, +1 for the foreign row), distinct by construction of the enumerators; "
+        "one row per '!' pattern, and per depth: the first valued default with another value ('stp mode rstp'), the first "
+        "default plus a word, the first default negated, a foreign row; rows only at the depth the rule text gives them, "
+        "+1 for the foreign row), distinct by construction of the enumerators; "
         "non-trivial = some rule application is decided by an explicit row (a default suppressed by, or identical to, an "
         "explicit row, or a block of t matched by a pattern so that completion recursed into it). "
         "pair: one case = (class, t, u), t != u; non-trivial = the patch is non-empty")
@@ -58,6 +63,11 @@ ASSUMPTIONS = [
     "clause 4 is not judged for a default whose negation ('undo X' / 'no X' / X) is explicit in t or u at that place: the "
     "removal command of that explicit row legitimately equals the default's text (counted as outcome)",
     "negation word: 'undo' for Huawei, 'no' for the others",
+    "clause 4 is judged where the claim's premise holds (the block exists in old and in new, no row matching the default's "
+    "pattern on either side); a default inside a block that exists on one side only, or suppressed on one side by a matching "
+    "row, is by construction on one side and is counted as outcome default-in-diff[parent-one-side|suppressed-one-side] "
+    "(JUDGE_CONTEXT_DEPENDENT turns these into violations) - clause 5 still judges those places",
+    "gen.py's three completion lines are replicated (merge_dicts(t, implicit.config(t, rules))), gen.old_new is not executed",
 ]
 BUDGET = {"quick": 90, "thorough": 900}
 
@@ -468,15 +478,39 @@ def walk_diff(diff, path=()):
     return out
 
 
-def diff_and_patch(c, old, new):
+def diff_and_pre(c, old, new):
     from annet import patching, rulebook
+    rb = rulebook.get_rulebook(c["dev"].hw)
+    diff = patching.make_diff(old, new, rb, [])
+    return patching.strip_unchanged(diff), patching.make_pre(diff)
+
+
+def patch_of(c, pre):
+    from annet import rulebook
     from annet.api import patch_from_pre
     hw = c["dev"].hw
-    rb = rulebook.get_rulebook(hw)
-    diff = patching.make_diff(old, new, rb, [])
-    pre = patching.make_pre(diff)
-    patch = patch_from_pre(pre, hw, rb, False)
-    return patching.strip_unchanged(diff), patch
+    return patch_from_pre(pre, hw, rulebook.get_rulebook(hw), False)
+
+
+def conflicts_in(pre, dabs, t_set, u_set, place=()):
+    """Observed on annet's own `pre`: (rule, key) groups in which a default that neither t nor u holds stands next to an
+    explicit row in the same ADDED (or REMOVED) list - annet treats the two as two values of one setting.
+    -> [(place, op, default_row, explicit_row, raw_rule)]"""
+    out = []
+    for raw_rule, ent in pre.items():
+        for _key, ops in ent["items"].items():
+            for op, explicit_set in (("added", u_set), ("removed", t_set)):
+                rows = [it["row"] for it in ops[op]]
+                if len(rows) >= 2:
+                    ds = [r for r in rows if (place, r) in dabs]
+                    es = [r for r in rows if (place, r) in explicit_set]
+                    if ds and es:
+                        out.append((place, op, ds[0], es[0], raw_rule))
+            for op in ops:
+                for it in ops[op]:
+                    if it["children"]:
+                        out.extend(conflicts_in(it["children"], dabs, t_set, u_set, place + (it["row"],)))
+    return out
 
 
 def at(forest, place):
@@ -538,25 +572,35 @@ def check_pair(c, t_list, u_list, v):
         for (place, row) in walk_forest(side):
             if (place, row) not in t_set and (place, row) not in u_set:
                 dabs[(place, row)] = None
+    exc = None
+    any_conflict = False
+    # same head: a default next to an explicit row of u that differs from it in the value only
+    conflicts = [(place, "added", d, h, "<same head>") for (place, d) in dabs
+                 for h, _ in (at(u_list, place) or []) if R.same_head(h, d, c["neg"])]
     try:
-        diff, patch = diff_and_patch(c, old, new)
+        diff, pre = diff_and_pre(c, old, new)
+        conflicts += [x for x in conflicts_in(pre, dabs, t_set, u_set) if x[:4] not in [y[:4] for y in conflicts]]
+        # judged where the default is one-sided for no other reason than the block being new (or not at all one-sided)
+        any_conflict = bool(conflicts)
+        conflicts = [x for x in conflicts if situation_of(c, x[0], x[2], t_list, u_list, old_l, new_l)[0]
+                     in ("same-context", "parent-one-side")]
+        patch = patch_of(c, pre)
     except Exception as e:  # noqa
+        exc = e
+    if exc is not None:
         try:
-            diff_and_patch(c, t, u)
+            patch_of(c, diff_and_pre(c, t, u)[1])
         except Exception as e2:  # noqa
             return "raises-also-without-implicit:%s" % type(e2).__name__, False
-        involved = sorted((situation_of(c, pl, d, t_list, u_list, old_l, new_l)[0], d, pl)
-                          for (pl, d) in dabs if repr(d) in str(e))
-        sits = [x[0] for x in involved]
-        sit = next((x for x in ("same-context", "parent-one-side", "negation-explicit", "suppressed-one-side") if x in sits),
-                   "unattributed")
-        if sit in ("same-context", "parent-one-side", "unattributed") or JUDGE_CONTEXT_DEPENDENT:
-            d = next((x[1] for x in involved if x[0] == sit), "?")
-            v({"kind": "patch-crash-with-implicit", "class": name, "exception": type(e).__name__, "default": d,
-               "situation": sit}, case,
-              "%s: %s\nold=%r\nnew=%r\n(the same pair without completion gives a patch)"
-              % (type(e).__name__, e, old_l, new_l))
-        return "raises-only-with-implicit:%s[%s]" % (type(e).__name__, sit), True
+        detail = ("%s: %s\nold=%r\nnew=%r\n(the same pair without completion gives a patch)"
+                  % (type(exc).__name__, exc, old_l, new_l))
+        for (place, op, d, h, raw_rule) in conflicts[:1]:
+            report_conflict(c, v, case, place, op, d, h, raw_rule, "raises " + type(exc).__name__, detail)
+        if not any_conflict:
+            v({"kind": "patch-crash-with-implicit", "class": name, "exception": type(exc).__name__}, case, detail)
+        return "raises-only-with-implicit:%s[%s]" % (type(exc).__name__, "judged conflict" if conflicts else
+                                                      "conflict via suppressing/negated row" if any_conflict else
+                                                      "unattributed"), True
     cmds = walk_patch(patch)
     entries = [(p, r) for (p, r, op) in walk_diff(diff) if op in ("added", "removed", "moved")]
     fired = set()
@@ -577,9 +621,28 @@ def check_pair(c, t_list, u_list, v):
                "rule": rule_label(rule.path) if rule else d}, case, detail)
         elif JUDGE_CONTEXT_DEPENDENT:
             v({"kind": "patch-default-alone", "class": name, "situation": situation}, case, detail)
-    label = "patch:%s%s" % ("empty" if not cmds else "cmds=%d" % min(len(cmds), 4),
-                            " default-in-diff[%s]" % ",".join(sorted(fired)) if fired else "")
+    # 5: conflicts that have an effect: the default's command is issued next to the explicit row's command
+    effect = ""
+    for (place, op, d, h, raw_rule) in conflicts:
+        pos_d = [i for i, (p, r) in enumerate(cmds) if p == place and r == d]
+        pos_h = [i for i, (p, r) in enumerate(cmds) if p == place and r == h]
+        if pos_d and pos_h:
+            effect = " default-beside-explicit"
+            report_conflict(c, v, case, place, op, d, h, raw_rule,
+                            "both commands, default last" if pos_d[-1] > pos_h[-1] else "both commands, explicit last",
+                            "commands=%r\nold=%r\nnew=%r" % (cmds, old_l, new_l))
+        elif not effect:
+            effect = " conflict-without-effect"
+    label = "patch:%s%s%s" % ("empty" if not cmds else "cmds=%d" % min(len(cmds), 4),
+                              " default-in-diff[%s]" % ",".join(sorted(fired)) if fired else "", effect)
     return label, bool(cmds)
+
+
+def report_conflict(c, v, case, place, op, d, h, raw_rule, effect, detail):
+    rule = next((r for r in rules_at(c["rules_ref"], place) if not r.ignore and r.row == d), None)
+    v({"kind": "default-conflicts-with-explicit", "class": c["name"], "rule": rule_label(rule.path) if rule else d}, case,
+      "at %r the explicit %r and the default %r (held by neither t nor u) are both %s (same setting by: %s); %s\n%s"
+      % (list(place), h, d, op, "same head" if raw_rule == "<same head>" else "annet's rulebook rule %r" % raw_rule, effect, detail))
 
 
 def run_pair(block, ctx):
